@@ -13,3 +13,91 @@ def run_wire(ctx):
     from corr import serialize, C09
     serialize.run(ctx)
     C09.run(ctx)
+
+
+# --------------------------------------------------------------------------------------------------
+# instances grown after construction: members added through the list API do not pass `convert`, so the write-time
+# check of the list element's type is the only thing between them and the wire ("refused rather than written")
+# --------------------------------------------------------------------------------------------------
+def run_grown_lists(ctx):
+    import copy
+    import xml.etree.ElementTree as ET
+    from gen.instances import Gen
+    from corr import types_common as T
+    from corr.agg_common import quiet, totree_line, model_ok_err
+    from codec import canon_tree
+    schema, rng = ctx.schema, ctx.rng
+    enums = schema["enums"]
+    gen = Gen(schema, rng, max_depth=1)
+    wrong = T.wrong_type_values(rng)
+    reps = ctx.budget(1, 4)
+    lines, meta = [], []
+    for c in schema["classes"]:
+        if not c.get("element_list") or c["abstract"]:
+            continue
+        la = [a for a in c["spec"] if a["k"] == "listelem"]
+        if len(la) != 1:
+            continue
+        attr = la[0]["name"]
+        cls = getattr(gen.M, c["name"])
+        conv = cls._superdict[attr].converter
+        kind, _ = T.kind_of(conv, enums)
+        kn = T.kname(kind)
+        for _ in range(reps):
+            d, inst = gen.valid_instance(c["name"])
+            if d is None:
+                continue
+            cands = rng.sample(wrong, ctx.budget(10, len(wrong)))
+            if kn == "string":
+                n = conv.length or 8
+                cands += ["x" * n, "x" * (n + 1), "é" * (n + 1), "a&b<c" + "y" * n]
+            if kn in ("oneof", "enum"):
+                cands += list(conv.valid)[:3] + ["NOT_A_TOKEN", list(conv.valid)[0].lower(), list(conv.valid)[0] + " "]
+            if kn == "integer":
+                n = conv.length or 4
+                cands += [10 ** n - 1, 10 ** n, -(10 ** n - 1), -(10 ** n)]
+            for j, x in enumerate(cands):
+                for how in (("append", "iadd", "insert") if j % 5 == 0 else ("append",)):
+                    grown = copy.deepcopy(inst)
+                    try:
+                        if how == "append":
+                            list.append(grown, x) if type(grown).append is list.append else grown.append(x)
+                        elif how == "iadd":
+                            grown += [x]
+                        else:
+                            grown.insert(0, x)
+                    except Exception:  # noqa
+                        ctx.stat("grown:refused_by_list_api")
+                        continue
+                    r = quiet(grown.to_etree)
+                    case = {"cls": c["name"], "attr": attr, "member": repr(x), "how": how}
+                    ctx.evaluations += 1
+                    ctx.stat("grown:" + r[0])
+                    ctx.mark([c["name"], repr(x), how])
+                    if r[0] == "ok":
+                        for leaf in r[1].findall(attr.upper()):
+                            t = leaf.text or ""
+                            if t == "":
+                                ctx.stat("grown:empty_element")       # no data written (a None member): not a data element
+                                continue
+                            ok = T.ref_lex(kind, t, enums)
+                            if ok is False:
+                                ctx.violate("grown_list_member_written_invalid", dict(case, text=t),
+                                            f"{c['name']}: member {x!r} added with {how} was written as {t!r}, which is not "
+                                            f"valid text of the list element's type", {"kind": kn})
+                    # the model on the same held values (only where the value is in the model's value domain)
+                    if T.value_in_model_domain(kind, x) and type(x) in (str, int, bool, type(None)) and how == "append":
+                        meta.append((case, r))
+                        lines.append(totree_line(grown))
+    replies = ctx.model.ask(lines)
+    for (case, r), rep in zip(meta, replies):
+        impl = ["ok", canon_tree(r[1])] if r[0] == "ok" else ["err"]
+        ctx.compare("totree_grown", case, impl, model_ok_err(rep))
+
+
+_run_wire_base = run_wire
+
+
+def run_wire(ctx):  # noqa: F811
+    _run_wire_base(ctx)
+    run_grown_lists(ctx)
